@@ -1,7 +1,7 @@
 """C10 — close always terminates, completes everything, invalidates handles."""
 import json
 from .. import core, life_common
-from . import c10_pfd, c10_reap
+from . import c10_pfd, c10_reap, c10_refcnt
 
 PROP = "C10"
 
@@ -12,7 +12,10 @@ def run(tier, seed, replay=None):
     if replay and json.load(open(replay)).get("sub") == c10_reap.SUB:
         return life_common.check(PROP, tier, seed, None, parts=[("reap", lambda t, s, st, r: c10_reap.run_part(t, s, st, replay))],
                                  extra_modules=c10_reap.MODULES)
+    if replay and json.load(open(replay)).get("sub") == c10_refcnt.SUB:
+        return life_common.check(PROP, tier, seed, None, parts=[("refcnt", lambda t, s, st, r: c10_refcnt.run_part(t, s, st, replay))],
+                                 extra_modules=c10_refcnt.MODULES)
     # the reaper (src/core/reap.c) under thread schedules: Props/C10Reap.lean + harness/u_reap.c
     # the posix poller under the transports (src/platform/posix/posix_pollq_epoll.c): Props/C10Pfd.lean + harness/u_pfd.c
-    return life_common.check(PROP, tier, seed, replay, parts=[("pfd", c10_pfd.run_part), ("reap", c10_reap.run_part)],
-                             extra_modules=list(c10_pfd.MODULES) + list(c10_reap.MODULES))
+    return life_common.check(PROP, tier, seed, replay, parts=[("pfd", c10_pfd.run_part), ("reap", c10_reap.run_part), ("refcnt", c10_refcnt.run_part)],
+                             extra_modules=list(c10_pfd.MODULES) + list(c10_reap.MODULES) + list(c10_refcnt.MODULES))
